@@ -1066,6 +1066,28 @@ async fn read_n<R: quic::RecvStream>(r: &mut R, n: usize, out: &mut Vec<u8>, obs
 }
 
 /// read until an error (data delivered before it is a don't-care); FIN is reported as Ok
+/// After a read has reported the peer's condition the application may read again (e.g. `recv_data`
+/// after an error, or `recv_trailers`): that call must not panic. What it returns is Quinn's
+/// business (the error again, or None) and is only counted.
+fn read_again_after_error<R: quic::RecvStream>(r: &mut R, cause: &str, obs: &ObsCell) {
+    let fw = FlagWaker::new();
+    for attempt in 0..2 {
+        let res = panics::catch(|| rig::poll_once(&fw, |cx| r.poll_data(cx)));
+        let mut o = obs.borrow_mut();
+        o.evaluations += 1;
+        match res {
+            Err(p) => {
+                o.violation(format!("poll_data-panics[read-again-after-{}]", cause), format!("poll_data #{} after the read had reported the peer's {} panicked: {} at {}", attempt + 2, cause, p.msg, p.loc));
+                return;
+            }
+            Ok(Poll::Ready(Err(e))) => o.count(&format!("read_again_after_error[{}:{}]", cause, rig::stream_err_kind(&e))),
+            Ok(Poll::Ready(Ok(None))) => o.count(&format!("read_again_after_error[{}:None]", cause)),
+            Ok(Poll::Ready(Ok(Some(_)))) => o.count(&format!("read_again_after_error[{}:data]", cause)),
+            Ok(Poll::Pending) => o.count(&format!("read_again_after_error[{}:Pending]", cause)),
+        }
+    }
+}
+
 async fn read_until_err<R: quic::RecvStream>(r: &mut R) -> Result<usize, StreamErrorIncoming> {
     let mut n = 0;
     loop {
@@ -1826,6 +1848,9 @@ async fn conn_death_scenario<B: Payload>(plan: &ErrPlan, obs: &ObsCell, stage: &
     stage.set("collect poll_data");
     let res = read_until_err(&mut r).await;
     check_stream_err(obs, cause, "poll_data", res.as_ref().map(|n| format!("FIN after {} B", n)).map_err(|e| e), want);
+    if res.is_err() {
+        read_again_after_error(&mut r, cause, obs);
+    }
     stage.set("collect poll_ready");
     let res = rig::ready::<B, _>(&mut w).await;
     check_stream_err(obs, cause, "poll_ready", res.as_ref().map(|_| "Ok".to_string()).map_err(|e| e), want);
@@ -1954,6 +1979,9 @@ async fn reset_scenario<B: Payload>(plan: &ErrPlan, obs: &ObsCell, stage: &Stage
         }
         let res = read_until_err(&mut DynMut(&mut *h)).await;
         check_stream_err(obs, "reset", "poll_data", res.as_ref().map(|n| format!("FIN after {} B", n)).map_err(|e| e), Want::Terminated(c));
+        if res.is_err() {
+            read_again_after_error(&mut DynMut(&mut *h), "reset", obs);
+        }
         q_recv(&DynRef(&*h), "after-reset", "after-reset", id, obs);
         keep.hold(rs);
         keep.hold(rr_keep);
